@@ -21,7 +21,7 @@ from lib import common, families, progcheck  # noqa: E402
 
 def main(run: common.Run):
     tier = run.tier
-    n = 30 if tier == "quick" else 1500
+    n = 30 if tier == "quick" else 400  # 1500 was tried once: see DESIGN 6.6 (open items)
     run.bounds = {"programs_per_layout": n, "stores_per_program": "2..4", "loads_per_program": "2..4",
                   "solver_cap_s": 20 if tier == "quick" else 120, "layouts": ["solidity", "generic"]}
     run.functions_encoded = ["halmos.sevm.SolidityStorage.{decode,load,store,init}", "halmos.sevm.GenericStorage.*",
